@@ -163,6 +163,11 @@ func c17RunHex(b []byte) (*xt.T, Verdict) {
 
 func c17RunJSON(b []byte, t int) (*xt.T, Verdict) {
 	msg, _, alloc, timedOut := c17Panics(60*time.Second, func() { json.Unmarshal(b, c17JSONTypes[t]()) })
+	if alloc > c17Budget(len(b)) && msg == "" && !timedOut { // confirm (see c17GuardedMin)
+		if m2, _, a2, t2 := c17Panics(60*time.Second, func() { json.Unmarshal(b, c17JSONTypes[t]()) }); m2 != "" || t2 || a2 < alloc {
+			msg, alloc, timedOut = m2, a2, t2
+		}
+	}
 	switch {
 	case timedOut:
 		return xt.N(xt.LI(3)), Fail("json-reply-timeout", "json.Unmarshal into reply type %d did not return", t)
